@@ -343,6 +343,7 @@ func collectFaults(sum *Summary, ep *Episode) {
 			sum.Faults["dequeue_refused"] += q.ad.FiredDeq
 			sum.Faults["ack_refused"] += q.ad.FiredAck
 			sum.Faults["ack_stalled"] += q.ad.FiredStall
+			sum.Faults["bad_entries_injected"] += q.ad.injected
 			sum.Faults["notification_duplicated"] += q.ad.Dups
 			sum.Faults["notification_delayed"] += q.ad.Delays
 			sum.Faults["dequeue_lost_race"] += q.ad.lostRace
